@@ -7,7 +7,9 @@ import random
 from . import common as C
 
 PID = "C07"
-MODELS = ["default", "python", "weighted", "python_bp"]
+SHIPPED = ["default", "python", "weighted", "python_bp"]
+# + two asymmetric weightings (insert != delete) of the harness: the argument order matters for them
+MODELS = SHIPPED + ["weighted_asym", "weighted_asym2"]
 POOL = ["FunctionDef(f)", "FunctionDef(g)", "AsyncFunctionDef(f)", "ClassDef(A)", "Arguments", "Arg(x)", "If", "For", "AsyncFor",
         "While", "Return", "BinOp(+)", "UnaryOp", "Call", "Attribute(a)", "List", "Tuple", "Name(x)", "Name(y)", "Constant(1)",
         "Constant(2)", "Assign", "Expr", "Decorator", "AnnAssign", "IfExp", "ListComp", "GeneratorExp", "Call(Field()"]
@@ -291,7 +293,12 @@ def run(tier, seed, replay=None):
             if not sym:
                 hist["asymmetric_cost_tables"] += 1
             tol = 1e-9 * (x["n1"] + x["n2"] + 1)
-            if abs(x["d11"]) > tol:
+            if abs(x["d12_again"] - x["d12"]) > tol:
+                report(pi, m, "history dependence: d(T1,T2)=%r, and %r when asked again after an inner subtree of T1 was compared on its own (d_sub=%r)"
+                       % (x["d12"], x["d12_again"], x["d_sub"]), {"session": ["d(T1,T2)", "d(T2,T1)", "d(T1,T1)", "d(sub(T1),T2')", "d(T1,T2)"]})
+            elif abs(x["d_copy"]) > tol and all(abs(ren[(a, a)]) < 1e-12 for a in labels):
+                report(pi, m, "distance of a tree to a fresh copy of itself is %r (after its subtree had been compared on its own)" % x["d_copy"])
+            elif abs(x["d11"]) > tol:
                 report(pi, m, "distance of a tree to itself is %r" % x["d11"])
             elif abs(x["s11"] - 1.0) > 1e-12:
                 report(pi, m, "similarity of a tree to itself is %r" % x["s11"])
@@ -327,7 +334,7 @@ def run(tier, seed, replay=None):
         if "error" in r:
             continue
         labels = sorted(set(POOL) | set(labels_of(t1, t2)))
-        for m in MODELS:
+        for m in SHIPPED:      # the metric-closure question is about the cost models pyscn ships, not about the harness's own weightings
             x = r[m]
             L = len(labels)
             ren = [row[:] for row in x["ren"]]
